@@ -254,8 +254,9 @@ class SVRP:
 
     @staticmethod
     def extract(td_in, td0, b, env):
-        return dict(locs=td0["locs"][b].tolist(), techs=[float(x) for x in td0["techs"][b].reshape(-1).tolist()],
-                    skills=[0.0] + [float(x) for x in td0["skills"][b].reshape(-1).tolist()], costs=[float(c) for c in env.tech_costs])
+        # technicians and requirements from the instance as handed over (route k belongs to technician k OF THE INSTANCE)
+        return dict(locs=td0["locs"][b].tolist(), techs=[float(x) for x in td_in["techs"][b].reshape(-1).tolist()],
+                    skills=[0.0] + [float(x) for x in td_in["skills"][b].reshape(-1).tolist()], costs=[float(c) for c in env.tech_costs])
 
     @staticmethod
     def routes_with_tech(actions):
